@@ -189,6 +189,30 @@ package nfsv4
 //@   assume scInv(oofs.shareCount, clonedShareAccess) && clonedShareAccess <= 3 -- established by shareCount.clone in the enclosing function before this callback is handed out
 //@   ensures every-owed-close-happens: vclosed(nil) == unsettled(nil)
 
+// A client that is held (so that its lease cannot expire under a running
+// operation) is released again on every path of that operation: otherwise the
+// client never becomes idle, its lease never expires and its opens and locks
+// are never reclaimed (C18). holds(c): hold minus release calls of this call.
+//@ ghost map holds(ref) int zero
+//@ func (*clientConfirmationState).hold
+//@   props C18
+//@   ghostset holds[ccs] = old(holds(ccs)) + 1
+//@ func (*clientConfirmationState).release
+//@   props C18
+//@   ghostset holds[ccs] = old(holds(ccs)) - 1
+//@ func (*compoundState).opReleaseLockowner
+//@   props C18
+//@   ensures every-hold-is-released: forall c ref :: holds(c) == 0
+//@ func (*compoundState).opLockt
+//@   props C18
+//@   ensures every-hold-is-released: forall c ref :: holds(c) == 0
+//@ func (*compoundState).opRenew
+//@   props C18
+//@   ensures every-hold-is-released: forall c ref :: holds(c) == 0
+//@ func (*compoundState).opSetclientidConfirm
+//@   props C18
+//@   ensures every-hold-is-released: forall c ref :: holds(c) == 0
+
 // Lock order: the lock of a file's byte-range lock table and the lock of the
 // opened-files pool are innermost (they are taken with a client's lock held).
 //@ leaflock OpenedFile.locksLock -- innermost lock: protects the byte-range lock table only
